@@ -198,13 +198,22 @@ def gen(rng):
     return {"op": "attr", "attrs": attrs, "spec": s, "mut": mut, "second": second}
 
 
-ROUTE_PANIC = "route-no-method: "
+def route_no_method(a):
+    if "diagnostic::pavex::route" not in a or re.search(r"\bmethod\s*=", a):
+        return False
+    return not re.search(r"allow_any_method\s*(=\s*(true|\"true\")|[,)])", a)
+
 
 
 def oracle(case, out):
     s, mut, second = case.get("spec"), case.get("mut"), case.get("second")
     if out.get("r") == "panic":
-        return ROUTE_PANIC + "the attribute parser panics (%s) on %r" % (out.get("msg", "")[:60], case["attrs"])
+        # The one modelled panic: `From<RouteProperties>` on a route attribute with neither `method` nor
+        # `allow_any_method = true`. The macros no longer write that (the documentation forbids it), so for a
+        # hand-made attribute it is the outcome the model predicts; any other panic is a defect.
+        if "Malformed `pavex::diagnostic::route` attribute" in out.get("msg", "") and any(route_no_method(a) for a in case["attrs"]):
+            return None
+        return "the attribute parser panics (%s) on %r" % (out.get("msg", "")[:80], case["attrs"])
     if out.get("r") not in ("none", "some", "err"):
         return "unexpected outcome %r" % (out,)
     if mut is None:
